@@ -193,6 +193,7 @@ func runC13(c *Ctx) {
 	var ooo, cutPatterns sync.Map
 	var oooN int64
 	var mu sync.Mutex
+	confirmations := 0
 	for _, listener := range listeners {
 		parallelFor(nConn, 12, func() bool { return c.ViolationCount() >= 10 || !b.Proxy.Alive() }, func(i int) {
 			r := gen.New(c.Seed, "c13/"+listener, i)
@@ -204,9 +205,20 @@ func runC13(c *Ctx) {
 				return
 			}
 			if sig == "missing-response" { // confirmation: same connection script alone, 3 times
+				if c.Seen(sig + ":" + listener) {
+					return
+				}
+				mu.Lock()
+				confirmations++
+				over := confirmations > 6
+				mu.Unlock()
+				if over {
+					c.Inconclusive("confirmation budget used up: " + what)
+					return
+				}
 				fails := 0
 				for k := 0; k < 3; k++ {
-					if s2, _, _ := c13RunConn(b, cc, stream, ids, qs, tags, 10*time.Second); s2 == "missing-response" {
+					if s2, _, _ := c13RunConn(b, cc, stream, ids, qs, tags, 6*time.Second); s2 == "missing-response" {
 						fails++
 					}
 				}
